@@ -189,3 +189,59 @@ func paramSeq(t []string) *result {
 	res.Extra["steps"] = steps
 	return res
 }
+
+
+// PGEN <Model> nSets seed: a parameter matrix from the generators of this harness (documented
+// ranges; table parameters of the dimensioned models laid out with max-extent blocks; GR4J X4 /
+// Lag timeLag equal across the sets), for drivers that build their own call sequences (C-ABI
+// sessions of tools/cabi_sessions.py).  Prints nP, the matrix, the model's numbers of inputs /
+// outputs and the state width InitialiseStates gives for these parameters.
+func pgen(t []string) *result {
+	res := &result{Cmd: "PGEN", Ok: true, Model: t[0], Extra: map[string]interface{}{}}
+	name := t[0]
+	nSets, _ := strconv.Atoi(t[1])
+	seed, _ := strconv.ParseInt(t[2], 10, 64)
+	factory := sim.Catalog[name]
+	if factory == nil {
+		res.Ok = false
+		res.Fails = []string{"no such model"}
+		return res
+	}
+	desc := factory().Description()
+	rng := rand.New(rand.NewSource(seed))
+	shared := map[string]float64{}
+	switch name {
+	case "GR4J":
+		shared["X4"] = 0.5 + 3.5*rng.Float64()
+	case "Lag":
+		shared["timeLag"] = float64(rng.Intn(4))
+	}
+	sets := make([]paramSet, nSets)
+	maxd := map[string]int{}
+	for c := range sets {
+		sets[c] = genParamSet(name, desc, rng, shared, drawMode{kind: "std"}, c)
+		for d, v := range sets[c].dims {
+			if v > maxd[d] {
+				maxd[d] = v
+			}
+		}
+	}
+	P, nP := layoutParams(desc, sets, maxd)
+	var ph []string
+	for _, v := range P {
+		ph = append(ph, hex(v))
+	}
+	pa, _, _ := goBackend{}.make2([]int{nP, nSets}, P)
+	st := prepModel(name, pa, nil).InitialiseStates(1)
+	var dims []int
+	for _, d := range desc.Dimensions {
+		dims = append(dims, maxd[d])
+	}
+	res.Extra["nP"] = nP
+	res.Extra["p_hex"] = ph
+	res.Extra["n_inputs"] = len(desc.Inputs)
+	res.Extra["n_outputs"] = len(desc.Outputs)
+	res.Extra["state_width"] = st.Len(1)
+	res.Extra["max_dims"] = dims
+	return res
+}
